@@ -7,6 +7,7 @@ import XmppModel.Lemmas.NegotiateReach
 import XmppModel.Lemmas.NegotiateTerm
 import XmppModel.Lemmas.NegotiateDriver
 import XmppModel.Lemmas.NegotiateTee
+import XmppModel.Lemmas.NegotiateDyn
 import XmppModel.Generated.C01
 /-!
 # C01 — features are negotiated only when allowed, in order, at most once
@@ -431,6 +432,91 @@ read of the connection (a new features list, a header). Together with
 of the feature's own (seeded change C01-6) breaks. -/
 theorem C01_voluntary_stays_in_list {c : Conf} (h : Reach C O st0 script picks c) : StayOK c.tr :=
   (invY_reach h).ok
+
+/-! ### a stream configuration that depends on the session
+
+`NewNegotiator` takes a *function* from the session to the `StreamConfig`; `negotiator` calls it in
+every negotiator call, i.e. before every features list, also for a second list on the same stream
+(after a mandatory feature that does not restart it). `F st` are the features the function returns
+for a session in state `st`; `ReachD F …` are the configurations reachable by `stepD`, which looks the
+configuration up afresh at every entry of `negotiateFeatures`. A negotiator that keeps using the
+configuration of an earlier call (seeded change C01-18: the function is only consulted when a
+stream header was exchanged) advertises and accepts features of a stale configuration. -/
+
+variable {F : St → List Feature}
+
+/-- the machine with a fixed configuration is the special case of a config function that ignores
+the session -/
+theorem C01_dyn_static (C : List Feature) (O : Oracle) (st0 : St) (script : List Peer)
+    (picks : List FName) (n : Nat) :
+    (runD (fun _ => C) O n (initD (fun _ => C) st0 script picks)).c = run C O n (init st0 script picks) := by
+  unfold initD; rw [runD_const]
+
+/-- **the receiver advertises exactly the *currently* configured features whose prerequisites
+hold**: every features list written in state `st` consists of the features the config function
+returns for `st`, filtered by their masks in `st` — for the first and for every later list of a
+stream -/
+theorem C01_dyn_recv_advert {d : DConf} (h : ReachD F O st0 script picks d) {st : St}
+    {fs : List Feature} {ok : Bool} (he : Ev.listOut st fs ok ∈ d.c.tr) :
+    fs = (F st).filter (eligible st) :=
+  (invLD_reach h).outOK st fs ok he
+
+/-- prerequisites and negotiability hold for every `Negotiate` call, whatever the config function
+returns -/
+theorem C01_dyn_prereq {d : DConf} (h : ReachD F O st0 script picks d)
+    {f : Feature} {st : St} {req forced srv : Bool} {r : NegRes}
+    (he : Ev.neg f st req forced srv r ∈ d.c.tr) : eligible st f = true ∧ f.negotiable = true :=
+  (invA_reachD h).good _ he
+
+/-- at most once per stream, only from the current list, restart ⇒ header, voluntary first, a
+refusal ends the run, monotone, ready: the theorems whose statements do not mention the
+configuration hold for every config function -/
+theorem C01_dyn_once {d : DConf} (h : ReachD F O st0 script picks d) : OnceOK d.c.tr :=
+  (invD_reachD h).ok
+
+theorem C01_dyn_advertised {d : DConf} (h : ReachD F O st0 script picks d) : AdvOK d.c.tr :=
+  (invF_reachD h).ok
+
+theorem C01_dyn_restart_header {d : DConf} (h : ReachD F O st0 script picks d) : RestartOK d.c.tr :=
+  (invE_reachD h).ok
+
+theorem C01_dyn_voluntary_first {d : DConf} (h : ReachD F O st0 script picks d) : VolOK d.c.tr :=
+  (invV_reachD h).ok
+
+theorem C01_dyn_recv_refuse {d : DConf} (h : ReachD F O st0 script picks d) {n : FName}
+    (he : Ev.refuse n ∈ d.c.tr) : d.c.pc = .fail .policy ∧ ∃ rest, d.c.tr = .refuse n :: rest :=
+  let ⟨h1, rest, h2, _⟩ := (invG_reachD h).refused n he
+  ⟨h1, rest, h2⟩
+
+theorem C01_dyn_monotone {d : DConf} (h : ReachD F O st0 script picks d) : sub st0 d.c.st := monoD h
+
+theorem C01_dyn_ready {d : DConf} (h : ReachD F O st0 script picks d) (hd : d.c.pc = .done) :
+    has d.c.st bReady = true := (invC_reachD h).doneReady hd
+
+/-- non-vacuity, and the seeded scenario: a receiver whose config function offers `login` and
+`extra` before authentication, `login` and `final` after it; `login` is mandatory, sets `Authn` and
+does not restart the stream. The second list of the stream is `[final]`, and the selection of
+`extra` — advertised in the first list only — is refused without running it. -/
+def dLogin : Feature := ⟨0, ⟨2, 1⟩, 0, bAuthn, true⟩
+def dExtra : Feature := ⟨1, ⟨3, 1⟩, 0, 0, true⟩
+def dFinal : Feature := ⟨2, ⟨4, 1⟩, 0, 0, true⟩
+def dF : St → List Feature := fun st => if has st bAuthn then [dLogin, dFinal] else [dLogin, dExtra]
+def dO : Oracle :=
+  { plainO with neg := fun _ f _ => if f.id == 0 then ⟨bAuthn, false, false⟩ else ⟨0, false, false⟩,
+                list := fun _ f _ => ⟨f.id != 1, false⟩ }
+def dRun : DConf :=
+  runD dF dO 40 (initD dF bReceived [.hdr true, .elem ⟨2, 1⟩ false true, .elem ⟨3, 1⟩ false true] [])
+
+example : ReachD dF dO bReceived [.hdr true, .elem ⟨2, 1⟩ false true, .elem ⟨3, 1⟩ false true] [] dRun :=
+  ⟨40, rfl⟩
+example : Ev.listOut bReceived [dLogin, dExtra] true ∈ dRun.c.tr := by decide
+example : Ev.listOut (bReceived ||| bAuthn) [dFinal] true ∈ dRun.c.tr := by decide
+example : dRun.c.pc = .fail .policy ∧ Ev.refuse ⟨3, 1⟩ ∈ dRun.c.tr := by decide
+-- with the configuration of the first call kept (a fixed configuration) the stale `extra` is
+-- advertised again and its selection is run: what `C01_dyn_recv_advert` excludes
+example : Ev.listOut (bReceived ||| bAuthn) [dExtra] true ∈
+    (run [dLogin, dExtra] dO 40 (init bReceived [.hdr true, .elem ⟨2, 1⟩ false true, .elem ⟨3, 1⟩ false true] [])).tr := by
+  decide
 
 /-! ### negotiation ends -/
 
